@@ -9,7 +9,7 @@ from vlib.oracles import quat_to_mat, loguniform
 ROD_KINDS = [("Quaternion", 1), ("Quaternion", 2), ("SE3", 1), ("R12", 1), ("R12", 2)]
 
 
-def simple_rod(rng, name="rod", nel=None, kind=None, mixed=False, constraints=None):
+def simple_rod(rng, name="rod", nel=None, kind=None, mixed=False, constraints=None, curved=False):
     from cardillo.rods.cosseratRod import make_CosseratRod
     from cardillo.rods import CrossSectionInertias, CircularCrossSection, Simo1986
     interp, p = ROD_KINDS[int(rng.integers(len(ROD_KINDS)))] if kind is None else kind
@@ -21,7 +21,23 @@ def simple_rod(rng, name="rod", nel=None, kind=None, mixed=False, constraints=No
     L = float(rng.uniform(0.5, 3.0))
     r0 = rng.normal(size=3)
     A0 = quat_to_mat(rng.normal(size=4))
-    Q = np.asarray(Rod.straight_configuration(nel, L, r_OP0=r0, A_IB0=A0), dtype=float)
+    if curved:
+        # circular arc with twist about the tangent: the cross-section orientation differs from element to element
+        theta = float(rng.uniform(0.4, min(3.0, 1.0 * p * nel)))
+        tw = float(rng.uniform(-0.6, 0.6))
+        Rr = L / theta
+
+        def _r(xi):
+            return Rr * np.array([np.sin(theta * xi), 1 - np.cos(theta * xi), 0.0])
+
+        def _A(xi):
+            c, s_ = np.cos(theta * xi), np.sin(theta * xi)
+            ct, st = np.cos(tw * xi), np.sin(tw * xi)
+            return np.array([[c, -s_, 0], [s_, c, 0], [0, 0, 1.0]]) @ np.array([[1.0, 0, 0], [0, ct, -st], [0, st, ct]])
+
+        Q = np.asarray(Rod.pose_configuration(nel, _r, _A, xi1=1.0, r_OP0=r0, A_IB0=A0), dtype=float)
+    else:
+        Q = np.asarray(Rod.straight_configuration(nel, L, r_OP0=r0, A_IB0=A0), dtype=float)
     cs = CircularCrossSection(L / 40)
     mat = Simo1986(loguniform(rng, 1, 1e3, size=3), loguniform(rng, 0.1, 1e2, size=3))
     inert = CrossSectionInertias(A_rho0=float(loguniform(rng, 0.1, 10)), B_I_rho0=np.diag(loguniform(rng, 1e-3, 1e-1, size=3)))
@@ -35,7 +51,7 @@ def simple_rod(rng, name="rod", nel=None, kind=None, mixed=False, constraints=No
         xi = int(rng.integers(1, nel)) / nel  # element boundary
     else:
         xi = float(rng.uniform(0.02, 0.98))
-    info = {"interp": interp, "p": p, "nel": nel, "xi": xi, "L": L,
+    info = {"interp": interp, "p": p, "nel": nel, "xi": xi, "L": L, "curved": bool(curved),
             "xi_class": ["0", "1", "element_boundary" if nel > 1 else "interior", "interior"][c]}
     return rod, xi, info
 
